@@ -226,6 +226,10 @@ func genRename(prop string, seed uint64, run int, tier string) *Scenario {
 	g.swarm(&sc.Cfg)
 	sc.Cfg.Lagfree = g.chance(0.2)
 	sc.Cfg.Coalesce = false
+	if !sc.Cfg.Lagfree && g.chance(0.15) {
+		// a consumer that is away for seconds at a time between two events
+		sc.Cfg.Consumers = []ConsumerCfg{{Mode: "both", Nap: 10 + g.r.Intn(30)}}
+	}
 	setup := []Op{{K: OpMkdir, P: "a"}, {K: OpMkdir, P: "b"}, {K: OpMkdir, P: "out"}}
 	nt := 1 + g.r.Intn(4)
 	if sc.Cfg.Lagfree {
@@ -609,7 +613,7 @@ func genRecurse(prop string, seed uint64, run int, tier string) *Scenario {
 	sc.Cfg.Recurse = true
 	sc.Cfg.Lagfree = true // directories are created one level at a time, each followed by delivery of its Create
 	sc.Cfg.Coalesce = false
-	names := []string{"dir1", "dir10", "dir100", "sub", "sub2", "a", "ab", "abc"}
+	names := []string{"dir1", "dir10", "dir100", "sub", "sub2", "a", "ab", "abc", "..."}
 	setup := []Op{{K: OpMkdir, P: "r1"}, {K: OpMkdir, P: "r2"}}
 	dirs := map[string][]string{"r1": {"r1"}, "r2": {"r2"}}
 	tworoots := g.chance(0.5)
